@@ -97,7 +97,23 @@ CFG = {
             "+ n/5 random dictionaries/streams of 1..3 of the 120 entries (wildcard one time in three) reached at top level, as a "
             "required/optional entry of an outer dictionary, array element, heterogeneous-array element, behind a name, as an "
             "alternative of a disjunction, or through a reference; oracle = declarative Conforms (a present forbidden key never "
-            "conforms, whatever its check)",
+            "conforms, whatever its check) + after missed seed C08_10 (Array arm: size Some(0) treated like None): size_bounds.case (44 "
+            "hand-built cases) + EXHAUSTIVE boundary family (Driver/C08Bounds.lean): every numeric parameter of the type language at "
+            "its boundary values x objects at and around the boundary x every position a check can occur in. Homogeneous arrays: size "
+            "{none, 0, 1, 2, 3, 4, 5, 1000000007} x 11 element kinds (Any unconstrained = the Any short-cut, Any with predicate, "
+            "primitive, primitive with indirect required, named, named resolving to Any, named zero-sized array, disjunction, nested "
+            "array of size 0, nested array of size 1, dictionary) x 15 objects (arrays of 0..4 conforming elements, the same with the "
+            "first / the last element non-conforming, a non-array, references to the empty and to a one-element array) at top level "
+            "(1320 cases) and, for 4 element kinds (thorough: all 11), in each of 13 positions: element of an outer array (unsized / "
+            "sized exactly / sized one short / outer array fixed to size 0), heterogeneous-array slot, behind a name, through a "
+            "reference, first / later alternative of a disjunction, required / optional dictionary entry, wildcard entry, stream entry "
+            "(6240; thorough 17160); heterogeneous arrays with 0..4 positional checks x lengths 0..5 x every single non-conforming "
+            "position; dictionaries and streams with NO entry and dictionaries with ONLY a wildcard entry (required / optional / "
+            "forbidden x 4 checks) x 0 / 1 / 2 keys conforming or not; disjunctions of 1..4 options whose options are arrays fixed to "
+            "different sizes (0 included, both orders) x arrays of 0..4 elements; choice predicates with 0 / 1 / 2 / 3 values - each "
+            "in all 14 positions (+15008 exhaustive cases quick, +25928 thorough); + n/5 random sized arrays under two random positions composed; expected "
+            "verdicts from the declarative Conforms only (an Array type of size 0 admits exactly the empty array; both directions: "
+            "non-empty array against size 0, empty array against size k > 0)",
     "trusted_base": COMMON_TB + [
         "modelled, not verified: BTreeSet/BTreeMap/VecDeque/Rc semantics (memo as a list with the derived structural equality; "
         "predicate identity = structural equality of the model predicate: the harness interns predicates)",
